@@ -379,6 +379,7 @@ func checkC18(w *Worker) {
 		}
 	}
 	var first *c18Input
+	longInputs := false
 	one := func(x *Exec) {
 		ii := x.Choose(len(inputs), "input:input")
 		policy := x.Choose(2, "input:consumer") // 0: documented loop (stop at first error); 1: drain until Done
@@ -395,7 +396,7 @@ func checkC18(w *Worker) {
 		x.Case(fmt.Sprint(ii, policy, o.Trace), refErr != "" || len(refEvents) > 1)
 		x.Sample(map[string]interface{}{"input": in.Name, "consumer": []string{"stop at first error", "drain until Done"}[policy], "schedule": o.Trace, "consumer_saw": o.Events, "deadlock": o.Deadlock})
 		k := key{ii, policy}
-		if first != nil || c18ConsumerParses {
+		if first != nil || c18ConsumerParses || longInputs {
 			k = key{-1 - ii, policy} // (not part of the validation against real channels below)
 		}
 		if modelOutcomes[k] == nil {
@@ -455,6 +456,24 @@ func checkC18(w *Worker) {
 		}
 	}
 	w.Explore("schedules", ExploreOpts{ShardDepth: 2}, one)
+	// inputs beyond any batch a producer might collect before handing over (257, 300, 513, 1025 records; an error after the
+	// 300th): up to two departures from the default schedule
+	all := inputs
+	inputs = nil
+	for _, n := range []int{257, 300, 513, 1025} {
+		var sb strings.Builder
+		for r := 1; r <= n; r++ {
+			sb.WriteString(fmt.Sprintf("day%04d:\n  food%d: %d\n", r, r, r))
+		}
+		inputs = append(inputs, c18Input{Name: fmt.Sprintf("%d-records", n), Text: sb.String(), FailAt: -1})
+		if n == 300 {
+			inputs = append(inputs, c18Input{Name: "300-records-then-error", Text: sb.String() + "last:\n  nosep\nafter:\n  x: 1\n", FailAt: -1})
+			inputs = append(inputs, c18Input{Name: "300-records-reader-fails", Text: sb.String(), FailAt: len(sb.String()) - 7})
+		}
+	}
+	longInputs = true
+	w.Explore("long-inputs", ExploreOpts{ShardDepth: 2, Budgets: map[string]int{"sched": 2}}, one)
+	inputs, longInputs = all, false
 	// two parsers at once: every pair of five small inputs, every interleaving of the two pipelines
 	var smalls []c18Input
 	for _, in := range inputs {
